@@ -87,22 +87,6 @@ fn decay_body<const N: usize, const K: usize, const L: usize, const CAP2: u64>()
     let mut rng = TapeRng::<L>::draw();
     let s = DecayingAcceptanceSampler::new(validators(&stakes), max_samples, K);
     vcheck!(s.quorum_size() == K, "quorum_size differs from the configured size");
-    let q = s.sample_quorum(&mut rng);
-    check_wellformed::<N>(&q, K);
-    let mut i = 0;
-    while i < N {
-        vcheck!(count_of(&q, i) <= cap, "validator drawn more often than its seat cap");
-        i += 1;
-    }
-    {
-        let c = s.sample_count.lock();
-        let mut i = 0;
-        while i < N {
-            vcheck!(c[i] == 0, "acceptance counters not reset after sample_quorum");
-            i += 1;
-        }
-        vcheck!(c.len() == N, "acceptance counters resized");
-    }
     // native replay only: the same validator set and the same random source give the same committee
     // (under Kani any use of ambient randomness inside sampling_strategy.rs is reported where it happens)
     #[cfg(not(kani))]
@@ -118,6 +102,22 @@ fn decay_body<const N: usize, const K: usize, const L: usize, const CAP2: u64>()
             }
             seed += 1;
         }
+    }
+    let q = s.sample_quorum(&mut rng);
+    check_wellformed::<N>(&q, K);
+    let mut i = 0;
+    while i < N {
+        vcheck!(count_of(&q, i) <= cap, "validator drawn more often than its seat cap");
+        i += 1;
+    }
+    {
+        let c = s.sample_count.lock();
+        let mut i = 0;
+        while i < N {
+            vcheck!(c[i] == 0, "acceptance counters not reset after sample_quorum");
+            i += 1;
+        }
+        vcheck!(c.len() == N, "acceptance counters resized");
     }
     vcover!(rng.pos > 2 * K, "a candidate was rejected");
     vcover!(count_of(&q, 0) == cap.min(K as u64), "validator 0 fills its cap");
